@@ -1,6 +1,8 @@
 // Native replay of the L3 codec-world harnesses (C01 round trip, C02 ordering, C11 clone/copy_legal/move_legal): the same message shape
 // and the counterexample's values through the real library (libfix8.so + the f8c output for schemas/mini.xml compiled natively), ASan/UBSan.
 //   l3replay <mode> <msg 0|1> <nel> <field>...     mode: rt | clone | copy | move
+//   nested shapes (built with -DVF_L3_MINI2 over the f8c output for schemas/mini2.xml; msg 2 = List): extra arguments N:<outer element>:<nested count>, comp 10+4e+k =
+//   nested element k of outer element e; modes dclone | dcopy | dmove: the source of the operation is the message Message::factory decodes from encode(m)
 //   field = comp:tag:kind:value      comp 0 header, 1 body, 2+i group element i; kind i(int) s(hex bytes) c(char code) b(0/1) t(ticks) f(double bits hex:precision)
 // prints  E1 <hex>, E2 <hex>, D <comp> <tag> <hex of printed value> per decoded/target field, and RESULT ok | RESULT violation: <text>
 #define VF_L3_NATIVE 1
@@ -15,6 +17,9 @@
 struct FD { int comp; unsigned tag; char kind; std::string sval; long long ival; int prec; };
 static std::vector<FD> F;
 static int nel, which;
+#ifdef VF_L3_MINI2
+static int nn[8];          // nested element count per outer element
+#endif
 static std::string hex(const std::string& s) { static const char *d = "0123456789abcdef"; std::string o; for (unsigned char c : s) { o += d[c >> 4]; o += d[c & 15]; } return o; }
 static std::string unhex(const char *h) { std::string o; for (size_t i = 0; h[i] && h[i + 1]; i += 2) { char b[3] = { h[i], h[i + 1], 0 }; o += char(strtol(b, nullptr, 16)); } return o; }
 static BaseField *mk(const FD& d)
@@ -32,6 +37,21 @@ static BaseField *mk(const FD& d)
 static Message *build()
 {
    Message *m = vf_new_msg(which, true);
+#ifdef VF_L3_MINI2
+   if (which == 2) {
+      GroupBase *g = vf_find_group(m, 13);
+      std::vector<MessageBase *> el; std::vector<std::vector<MessageBase *>> nl(nel);
+      for (int e = 0; e < nel; ++e) el.push_back(vf_group_new2(g, 13));
+      for (int e = 0; e < nel; ++e) for (int k = 0; k < nn[e]; ++k) nl[e].push_back(vf_group_new2(vf_find_group(el[e], 16), 16));
+      for (const FD& d : F) {
+         MessageBase *c = d.comp == 0 ? vf_header(m) : d.comp == 1 ? static_cast<MessageBase *>(m) : d.comp >= 10 ? nl[(d.comp - 10) / 4][(d.comp - 10) % 4] : el[d.comp - 2];
+         vf_add(c, mk(d));
+      }
+      for (int e = 0; e < nel; ++e) for (int k = 0; k < nn[e]; ++k) vf_group_add(vf_find_group(el[e], 16), nl[e][k]);
+      for (int e = 0; e < nel; ++e) vf_group_add(g, el[e]);
+      return m;
+   }
+#endif
    GroupBase *g = nel ? vf_find_group(m, 33) : nullptr;
    std::vector<MessageBase *> el;
    for (int e = 0; e < nel; ++e) el.push_back(vf_group_new(g));
@@ -45,8 +65,18 @@ static Message *build()
 static std::string enc(Message *m) { f8String s; m->encode(s); return s; }
 static std::string ftext(const BaseField *f) { char buf[256]; size_t n = f->print(buf); return std::string(buf, n); }
 static const int POS_H[] = { 8, 9, 35, 34, 49, 56, 52 }, POS_B1[] = { 11, 54, 38, 44, 43, 60, 61, 62, 33 }, POS_B0[] = { 63 }, POS_G[] = { 36, 58 };
+#ifdef VF_L3_MINI2
+static const int POS_B2[] = { 12, 13 }, POS_G2[] = { 14, 15, 16 }, POS_N2[] = { 17, 18 };
+#endif
 static std::vector<const FD *> expected(int comp)
 {
+#ifdef VF_L3_MINI2
+   if (which == 2 && comp >= 1) {
+      std::vector<const FD *> out; const int *tab = comp == 1 ? POS_B2 : comp < 10 ? POS_G2 : POS_N2; int n = comp == 1 ? 2 : comp < 10 ? 3 : 2;
+      for (int k = 0; k < n; ++k) for (const FD& d : F) if (d.comp == comp && int(d.tag) == tab[k]) out.push_back(&d);
+      return out;
+   }
+#endif
    std::vector<const FD *> out; const int *tab = comp == 0 ? POS_H : comp == 1 ? (which ? POS_B1 : POS_B0) : POS_G; int n = comp == 0 ? 7 : comp == 1 ? (which ? 9 : 1) : 2;
    for (int k = 0; k < n; ++k) for (const FD& d : F) if (d.comp == comp && int(d.tag) == tab[k]) out.push_back(&d);
    return out;
@@ -79,6 +109,20 @@ static bool component_is(const MessageBase *c, int comp, int pre, const char *wh
 static bool shape_holds(Message *x, const char *who)
 {
    if (!component_is(vf_header(x), 0, 3, who) || !component_is(x, 1, 0, who)) return false;
+#ifdef VF_L3_MINI2
+   if (which == 2) {
+      GroupBase *g = vf_find_group(x, 13);
+      if (!g || int(vf_group_size(g)) != nel) { bad = std::string(who) + ": outer group has " + std::to_string(g ? vf_group_size(g) : 0) + " elements, expected " + std::to_string(nel); return false; }
+      for (int e = 0; e < nel; ++e) {
+         MessageBase *el = vf_group_el(g, e);
+         if (!component_is(el, 2 + e, 0, who)) return false;
+         GroupBase *ng = vf_find_group(el, 16);
+         if (int(ng ? vf_group_size(ng) : 0) != nn[e]) { bad = std::string(who) + ": outer element " + std::to_string(e) + (ng ? " has " + std::to_string(vf_group_size(ng)) + " nested elements" : " has no nested group instance") + ", expected " + std::to_string(nn[e]) + " nested elements"; return false; }
+         for (int k = 0; k < nn[e]; ++k) if (!component_is(vf_group_el(ng, k), 10 + 4 * e + k, 0, who)) return false;
+      }
+      return true;
+   }
+#endif
    GroupBase *g = vf_find_group(x, 33);
    if (nel) {
       if (!g || int(vf_group_size(g)) != nel) { bad = std::string(who) + ": group has " + std::to_string(g ? vf_group_size(g) : 0) + " elements, expected " + std::to_string(nel); return false; }
@@ -92,8 +136,11 @@ static int finish(bool ok) { printf("RESULT %s%s\n", ok ? "ok" : "violation: ", 
 int main(int argc, char **argv)
 {
    if (argc < 4) return 2;
-   const std::string mode(argv[1]); which = atoi(argv[2]); nel = atoi(argv[3]);
+   std::string mode(argv[1]); which = atoi(argv[2]); nel = atoi(argv[3]);
    for (int i = 4; i < argc; ++i) {
+#ifdef VF_L3_MINI2
+      if (argv[i][0] == 'N') { int e = 0, n = 0; if (sscanf(argv[i], "N:%d:%d", &e, &n) != 2 || e < 0 || e >= 8) return 2; nn[e] = n; continue; }
+#endif
       FD d {}; char kind; char val[512] {}; if (sscanf(argv[i], "%d:%u:%c:%500s", &d.comp, &d.tag, &kind, val) < 3) return 2;
       d.kind = kind;
       if (kind == 's') d.sval = unhex(val);
@@ -103,6 +150,14 @@ int main(int argc, char **argv)
    }
    try {
       Message *m = build();
+      if (mode.size() > 1 && mode[0] == 'd' ) {      // dclone | dcopy | dmove: the source is the decoded message
+         const std::string w(enc(m)); printf("E0 %s\n", hex(w).c_str());
+         Message *d = nullptr;
+         try { d = Message::factory(MINI::ctx(), w); }
+         catch (f8Exception& e) { bad = std::string("the factory rejects the encoder's own bytes: ") + typeid(e).name(); return finish(false); }
+         if (!shape_holds(d, "decoded")) return finish(false);
+         m = d; mode = mode.substr(1);
+      }
       if (mode == "rt") {
          const std::string e1(enc(m)); printf("E1 %s\n", hex(e1).c_str());
          Message *d = nullptr;
